@@ -111,6 +111,16 @@ def run_case(ck, desc):
         if va.shape != arr.shape or not ck.margin(f"array with repeated pressures = scalar calls ({name})", float(np.max(np.abs(va - ref) / np.abs(ref))), 1e-12):
             k = int(np.argmax(np.abs(va - ref) / np.abs(ref))) if va.shape == arr.shape else -1
             ck.violation(f"ordering-holds-on-arrays-with-repeated-pressures.{name}", {"p": float(arr[k]), "array": float(va[k]) if k >= 0 else None, "scalar": float(ref[k]) if k >= 0 else None, "above_pb": bool(arr[k] > pb)}, desc)
+    # ... and in DEPLETION order (first element above p_b) with the oil's parameters typed as the
+    # documentation writes them, Fluid(200, 35, 0.8, 650): integers where they are integral
+    ai = tuple(int(v) if float(v).is_integer() else v for v in (api, gg, gor))
+    Ti = int(T) if float(T).is_integer() else T
+    down = np.concatenate([hi[::-8], lo[::-8]])
+    for name, g_arr, g_sc in (("Rs", lambda p_: oil.solution_gor_Standing(Ti, p_, *ai), fns["Rs"]), ("Bo", lambda p_: oil.b_o_Standing(Ti, p_, *ai), fns["Bo"]), ("rho_o", lambda p_: oil.density_Standing(Ti, p_, *ai), fns["rho_o"])):
+        va = np.asarray(g_arr(down))
+        ref = np.array([float(g_sc(float(x))) for x in down])
+        if va.dtype.kind != "f" or va.shape != down.shape or not ck.margin(f"depletion-ordered array = scalar calls ({name})", float(np.max(np.abs(va.astype(float) - ref) / np.abs(ref))), 1e-12):
+            ck.violation(f"ordering-holds-on-depletion-ordered-arrays.{name}", {"dtype": str(va.dtype), "integer_typed_parameters": [type(v).__name__ for v in (Ti, *ai)], "max_rel": float(np.max(np.abs(va.astype(float) - ref) / np.abs(ref))) if va.shape == down.shape else None}, desc)
     ck.count("arrays_with_repeated_pressures", 3)
     if int((T * 31.7 + api * 17.3 + gg * 1000.3) * 1000) % 40 == 0:
         # one call on a very long array (a field-wide history: 70 000 and 140 001 pressures through the
